@@ -5,6 +5,7 @@ pub mod conv;
 pub mod div;
 pub mod modpow;
 pub mod mul;
+pub mod numth;
 pub mod text;
 
 use crate::rec::Rec;
@@ -17,6 +18,10 @@ pub fn run(name: &str, r: &mut Rec) -> bool {
         "conv" => conv::run(r),
         "div" => div::run(r),
         "mul" => mul::run(r),
+        "roots" => numth::run_roots(r),
+        "pow" => numth::run_pow(r),
+        "gcd" => numth::run_gcd(r),
+        "sign" => numth::run_sign(r),
         "modpow" => modpow::run(r),
         "text" => text::run(r),
         _ => return false,
